@@ -69,6 +69,7 @@ contract(AC + "._update_state",
          modifies=STATE_ATTRS + PROP_ATTRS + ENERGY_ATTRS + HUM_ATTRS,
          raises={},
          ensures={
+             "typed_attribute_invariant_preserved": "conforms(self)",
              "state.power": "implies(isinstance(res, StateResponse), self._power_state == res.power_on)",
              "state.temperature": "implies(isinstance(res, StateResponse), self._target_temperature == res.target_temperature)",
              "state.mode": "implies(isinstance(res, StateResponse) and res.operational_mode is not None, self._operational_mode == enum_or(AirConditioner.OperationalMode, res.operational_mode, AirConditioner.OperationalMode.FAN_ONLY))",
@@ -312,6 +313,7 @@ contract(AC + "._update_capabilities",
          emits={"caps_applied": "dict(res._capabilities)"},
          raises={},
          ensures={
+             "typed_attribute_invariant_preserved": "conforms(self)",
              # C16: the property ids the device advertised (breeze control supersedes the legacy ids)
              "props.angles": "(PropertyId.SWING_UD_ANGLE in self._supported_properties) == cap(res, 'swing_vertical_angle') and (PropertyId.SWING_LR_ANGLE in self._supported_properties) == cap(res, 'swing_horizontal_angle')",
              "props.self_clean": "(PropertyId.SELF_CLEAN in self._supported_properties) == cap(res, 'self_clean')",
@@ -393,3 +395,22 @@ contract(AC + ".fan_speed!setter",
          params={"self": "obj:" + AC, "speed": "union:enum:" + AC + ".FanSpeed|int[0,255]|float"},
          assigns={"self._fan_speed": "int(speed) if isinstance(speed, float) else speed"}, raises={},
          notes="custom speeds are stored as given (1..100 percentages and the raw values 101, 102 alike); floats are truncated")
+
+
+# ---- constructors establish the class invariants that every other contract assumes for `obj:` parameters --------------------------
+from pyvc.dsl import conforms, has_own
+
+contract(AC + ".__init__",
+         params={"self": "new:" + AC, "ip": "str", "device_id": "int[0,281474976710655]", "port": "int[0,65535]",
+                 "sn": "opt:str", "name": "opt:str", "version": "opt:int[1,3]"},
+         bind_kwargs=["sn", "name", "version"], defaults={"sn": "None", "name": "None", "version": "None"},
+         modifies=["self.*"], raises={},
+         ensures={"declared_attribute_types_hold": "conforms(self) and conforms(self._lan)",
+                  "identity": "self._ip == ip and self._port == port and self._id == device_id and self._type == 0xAC",
+                  "advertised_details_kept": "self._sn == sn and self._name == name and self._version == version",
+                  "transport_targets_the_device": "self._lan._ip == ip and self._lan._port == port and self._lan._device_id == device_id",
+                  "nothing_pending": "len(self._updated_properties) == 0 and len(self._supported_properties) == 0",
+                  "c10.defaults_are_encodable": "self._operational_mode == AirConditioner.OperationalMode.AUTO and self._fan_speed == AirConditioner.FanSpeed.AUTO "
+                                                "and self._swing_mode == AirConditioner.SwingMode.OFF and self._target_temperature == 17.0 and self._aux_mode == AirConditioner.AuxHeatMode.OFF"},
+         notes="C01/C10/C16: a new device object satisfies the typed-attribute invariant the other contracts assume, has no pending property "
+               "writes, and its defaults are values SetStateCommand can encode")
